@@ -57,10 +57,10 @@ def structured_state(init, leaves, depth=0):
     return s
 
 
-def decompose(n, s):
+def decompose(n, s, force=False):
     """n as a case chain over s; every update is simplified under its own gate."""
     out = []
-    for g, u in _decompose(n, s):
+    for g, u in _decompose(n, s, force):
         sub = {}
         for c in (g.a if g.op == "and" else (g,)):
             if c.op == "not":
@@ -78,22 +78,22 @@ def decompose(n, s):
     return out
 
 
-def _decompose(n, s):
+def _decompose(n, s, force=False):
     """n as a case chain over s: list of (gate, update) where update is not s; paths where
     n is s are omitted."""
     if n is s:
         return []
-    if s not in tm.free_syms(n):
+    if not force and s not in tm.free_syms(n):
         return [(tm.TRUE, n)]
     if n.op == "ite":
         c, a, b = n.a
         out = []
-        for g, u in _decompose(a, s):
+        for g, u in _decompose(a, s, force):
             gg = tm.and_(c, g)
             if gg is not tm.FALSE:
                 out.append((gg, u))
         nc = tm.not_(c)
-        for g, u in _decompose(b, s):
+        for g, u in _decompose(b, s, force):
             gg = tm.and_(nc, g)
             if gg is not tm.FALSE:
                 out.append((gg, u))
@@ -265,6 +265,10 @@ class Classifier(object):
                 self.kinds.append(("empty-or-sum", incs))
                 gate = tm.or_(*[g for g, _ in incs])
                 return tm.ite(tm.any_(self.src, tm.lam([self.elem], gate)), total, leaf.init)
+        if leaf.init is tm.NONE or (leaf.init.op == "adt" and leaf.init.a[0] == "Option"):
+            r = self.option_sum(leaf, n)
+            if r is not None:
+                return r
         cases = decompose(n, s)
         incs = []
         vec = False
@@ -305,6 +309,78 @@ class Classifier(object):
             return out
         self.general.append((s, n))
         return mk("foldgen", self.uid, len(self.general) - 1)
+
+    def option_sum(self, leaf, n):
+        """Option<acc>: None -> Some(d), Some(a) -> Some(a + d): a commutative sum that starts at the
+        first contributing element."""
+        s = leaf.sym
+        acc = tm.fresh("oacc")
+        present = tm.subst(n, {s: tm.some(acc)})
+        absent = tm.subst(n, {s: tm.NONE})
+        if s in tm.free_syms(present) or s in tm.free_syms(absent):
+            return None
+
+        def payloads(t, keep):
+            out = []
+            for g, u in decompose(t, keep, force=True):
+                if not (u.op == "adt" and u.a[0] == "Option" and u.a[1] == 1):
+                    return None
+                out.append((g, u.a[2]))
+            return out
+        if present.op == "adt" and present.a[0] == "Option" and present.a[1] == 1:
+            pp = decompose(present.a[2], acc)          # ite pushed inside Some(..)
+        else:
+            pp = payloads(present, tm.some(acc))
+        ap = payloads(absent, tm.NONE)
+        if not pp or not ap:
+            return None
+        incs = []
+        vec = False
+        saved = self.state_syms
+        self.state_syms = frozenset(saved | set([acc]))
+        def only_len(c):
+            """state occurs in c only as len(acc): a length-consistency guard (the other branch leaves
+            the loop with an error)"""
+            return acc not in tm.free_syms(tm.subst(c, {mk("len", acc): tm.fresh("n")}))
+        guards = []
+        try:
+            for g, u in pp:
+                cj = list(g.a) if g.op == "and" else [g]
+                free = [c for c in cj if self.free_of_state(c)]
+                dep = [c for c in cj if not self.free_of_state(c)]
+                if any(not only_len(c) for c in dep):
+                    return None
+                guards.extend(dep)
+                r = increment(u, acc, self.state_syms)
+                if r is None:
+                    return None
+                incs.append((tm.and_(*free) if free else tm.TRUE, r[0]))
+                vec = vec or r[1]
+            for g, u in ap:
+                if not (self.free_of_state(g) and self.free_of_state(u)):
+                    return None
+        finally:
+            self.state_syms = saved
+
+        def cset(g):
+            return frozenset(c.id for c in (g.a if g.op == "and" else (g,)))
+        if len(incs) != len(ap):
+            return None
+        for (g1, d1), (g2, d2) in zip(incs, ap):
+            if d1 is not d2:
+                return None
+            # the accumulating case may carry extra state-free conjuncts implied by its guards only
+            if not cset(g2) <= cset(g1) and not cset(g1) <= cset(g2):
+                return None
+        incs = [(g2, d2) for (g2, d2) in ap]
+        self.kinds.append(("option-sum", incs))
+        total = sum_closed(self.src, self.elem, incs, vec)
+        gate = tm.or_(*[g for g, _ in incs])
+        if leaf.init is tm.NONE:
+            return tm.ite(tm.any_(self.src, tm.lam([self.elem], gate)), tm.some(total), tm.NONE)
+        if leaf.init.op == "adt" and leaf.init.a[1] == 1:
+            return tm.some(tm.vop("add", leaf.init.a[2], total) if vec else tm.add(leaf.init.a[2], total))
+        return None
 
     def accumulate(self, leaf, present, absent):
         """present/absent: next-state terms when the accumulator already holds a value / is
